@@ -268,6 +268,8 @@ def run(chk):
   for b in pr.get('sow_reduce_histories', [{'missing': True}])[:3]:
     chk.violation('oracle', 'ToNNX over a history of calls: the wrapper does not return / hold what Linen apply returns on the variables it held '
                   '(running statistics kept with sow(reduce_fn=...) and a mutable batch_stats counter)', b)
+  for b in pr.get('tolinen_skip_rng', [{'missing': True}])[:3]:
+    chk.violation('oracle', 'ToLinen(skip_rng=True) around an NNX module that owns RNG streams does not return what the NNX module returns with the same state and the stream key of the apply call', b)
   for b in pr.get('tolinen_partition_specs', [{'missing': True}])[:4]:
     chk.violation('oracle', 'ToLinen: the partition specs of the Linen variables differ from those of the wrapped NNX module (per-variable sharding_rules combined with the '
                   'nn.logical_axis_rules context)', b)
